@@ -20,7 +20,8 @@ def check(tier="quick", seed=0):
         try:
             d = json.loads(p.stdout)
         except Exception:
-            return {"name": "ground.native_roundtrip", "error": "worker under %s failed: %s" % (h, (p.stderr or "")[-300:]), "obligations": [], "violations": []}
+            from ground.common import worker_failed
+            return worker_failed("ground.native_roundtrip", h, p.stderr, repo)
         hosts.append(d["host"])
         n += d["evaluations"]
         for x in d["diffs"]:
